@@ -188,9 +188,17 @@ def shrink(d, what, open_ids, budget=300):
     triggers): keep a removal when the oracle still fails with the same `what` and the failure
     is still not a known finding.  Every candidate stays inside the schema (a removal that
     makes the document invalid changes `what` and is rejected)."""
+    def sig(fails):
+        """what + the field that differs (path without indices / uuids): a candidate must fail the same way"""
+        p = (fails[0].get("paths") or [""])[0].split("/")
+        return fails[0]["what"], tuple(c for c in p if not c.isdigit() and not (len(c) == 36 and c.count("-") == 4))
+
+    f0, _ = oracle(copy.deepcopy(d))
+    want = sig(f0) if f0 and f0[0]["what"] == what else None
+
     def still_fails(x):
         fails, _ = oracle(copy.deepcopy(x))
-        return bool(fails) and fails[0]["what"] == what and not classify(x, fails, open_ids)
+        return bool(fails) and fails[0]["what"] == what and (want is None or sig(fails) == want) and not classify(x, fails, open_ids)
 
     def lists(x):
         yield x, "triggers"
@@ -215,11 +223,20 @@ def shrink(d, what, open_ids, budget=300):
             while i < len(holder.get(key, [])) and budget > 0:
                 saved = holder[key]
                 holder[key] = saved[:i] + saved[i + 1:]
+                # a node goes together with its `_ui` entry (the candidate stays inside the schema)
+                ui_nodes = holder.get("_ui", {}).get("nodes") if key == "nodes" and isinstance(holder.get("_ui"), dict) else None
+                gone = saved[i].get("uuid") if isinstance(saved[i], dict) else None
+                ui_saved = dict(ui_nodes) if isinstance(ui_nodes, dict) and gone in ui_nodes else None
+                if ui_saved is not None:
+                    del ui_nodes[gone]
                 budget -= 1
                 if still_fails(cur):
                     progress = True
                 else:
                     holder[key] = saved
+                    if ui_saved is not None:
+                        ui_nodes.clear()
+                        ui_nodes.update(ui_saved)
                     i += 1
     return cur
 
